@@ -15,11 +15,11 @@ use serde_json::json;
 pub const SPEC: PropSpec = PropSpec {
 	id: "C18",
 	level: "exploration",
-	rule: "case = schema A (random, incl. same short names in different namespaces) + value: to_single_object must equal C3 01 ++ LE(bitwise CRC-64-AVRO of the reference canonical form) ++ to_datum(v); reading it back (slice and chunked reader) gives v; then (a) each of the 10 header bytes altered, (b) every truncation length 0..=min(len,24), (c) a schema B derived from A by one canonical-form-changing edit (rename a type / field, swap two fields, change a symbol or a fixed size, reorder union branches, edit inside the second of two same-short-name types) must reject A's message, (d) a re-spelling of A (other namespace notation, doc/aliases, logical type dropped or added) must accept it; distinct by hash(schema shape, message, edit)",
+	rule: "case = schema A (random, incl. same short names in different namespaces) + value: to_single_object (into a Vec and into a sink accepting 1..4096 bytes per write call, with / without its own write_vectored) and to_single_object_vec must equal C3 01 ++ LE(bitwise CRC-64-AVRO of the reference canonical form) ++ to_datum(v); reading it back (slice and chunked reader) gives v; then (a) each of the 10 header bytes altered, (b) every truncation length 0..=min(len,24), (c) a schema B derived from A by one canonical-form-changing edit (rename a type / field, swap two fields, change a symbol or a fixed size, reorder union branches, edit inside the second of two same-short-name types) must reject A's message, (d) a re-spelling of A (other namespace notation, doc/aliases, logical type dropped or added) must accept it; distinct by hash(schema shape, message, edit)",
 	assumptions: &["a CRC collision between different canonical forms would be counted as inconclusive, not as a violation"],
 	cases: (50_000_000, 4_000_000_000),
 	secs: (30, 600),
-	required: &["layout_ok", "roundtrip_ok", "header_corruption_rejected", "truncation_rejected", "different_pcf_rejected", "same_pcf_accepted"],
+	required: &["layout_ok", "layout_ok_on_short_writing_sink", "roundtrip_ok", "header_corruption_rejected", "truncation_rejected", "different_pcf_rejected", "same_pcf_accepted"],
 	run_case,
 	once: None,
 	panics_are_violations: true,
@@ -203,6 +203,35 @@ pub fn run_case(ctx: &mut Ctx, case_seed: u64) {
 		other => {
 			ctx.violation("to_single_object-writer-differs", case_seed, describe(json!({"got": format!("{:?}", other.map(|b| hex(&b)).map_err(|e| e.to_string()))})));
 			return;
+		}
+	}
+	// ... and into sinks that accept only part of each write, with or without a write_vectored of their own: the framing
+	// (marker, fingerprint) must arrive whole whatever the sink's write granularity
+	{
+		let sched: Vec<usize> = match rng.below(4) {
+			0 => vec![1],
+			1 => vec![*rng.pick(&[2usize, 3, 5, 9, 10, 11])],
+			2 => vec![4096],
+			_ => (0..1 + rng.below(6)).map(|_| 1 + rng.below(16)).collect(),
+		};
+		let native = rng.coin();
+		let sink = crate::io::ScheduledSink::new(sched.clone(), native);
+		match serde_avro_fast::to_single_object(&Present::new(&rs, &v, &canon), sink, &mut scfg) {
+			Ok(s) if s.out == expected => ctx.count("layout_ok_on_short_writing_sink"),
+			other => {
+				let class = match &other {
+					Err(_) => "failed",
+					Ok(s) if s.out.len() < expected.len() => "bytes-lost",
+					Ok(s) if s.out.len() > expected.len() => "bytes-duplicated",
+					_ => "bytes-altered",
+				};
+				ctx.violation(
+					format!("to_single_object-depends-on-sink-write-granularity {class} native_write_vectored={native}"),
+					case_seed,
+					describe(json!({"schedule": sched, "native_write_vectored": native, "expected": hex(&expected), "got": format!("{:?}", other.map(|s| hex(&s.out)).map_err(|e| e.to_string()))})),
+				);
+				return;
+			}
 		}
 	}
 	ctx.count("layout_ok");
